@@ -263,6 +263,15 @@ impl Machine {
         io.handle_steady_event(&mut self.stream, state, Event::new(ready, Token(token)))
     }
 
+    /// What `Inner::start_heartbeats` does, with the interval given in milliseconds so that a
+    /// scenario takes fractions of a second (the timers' arithmetic does not depend on the unit).
+    pub fn start_heartbeats_ms(&mut self, interval_ms: u64) {
+        let (io, _) = self.core.as_mut().expect("I/O loop is gone");
+        if interval_ms > 0 {
+            io.inner.heartbeats.start(std::time::Duration::from_millis(interval_ms));
+        }
+    }
+
     pub fn token_stream() -> usize {
         STREAM.0
     }
